@@ -401,10 +401,24 @@ def st_listing():
 
     @st.composite
     def line(draw):
-        kind = draw(st.sampled_from(["valid", "valid", "valid", "bad1", "bad2", "two", "empty", "comment", "text", "extra"]))
+        kind = draw(st.sampled_from(["valid", "valid", "valid", "bad1", "bad2", "two", "empty", "comment", "text", "extra", "odd"]))
         lab = draw(labels)
         if "\t" in lab:
             lab = lab.replace("\t", "")
+        if kind == "odd":
+            # characters that str.splitlines() / str.split() treat as separators but a text file does not end a line
+            # at (vertical tab, form feed, FS/GS/RS, NEL, LS, PS), non-ASCII letters, a byte-order mark: inside a field
+            ch = draw(st.sampled_from(["\x0b", "\x0c", "\x1c", "\x1d", "\x1e", "\x85", "\u2028", "\u2029", "\u00e9", "\ufeff", "\u00a0", " "]))
+            where = draw(st.integers(0, 2))
+            u1, u2 = draw(unit()), draw(unit())
+            if where == 0:
+                k = draw(st.integers(0, len(lab)))
+                lab = lab[:k] + ch + lab[k:]
+            elif where == 1:
+                u1 = u1.replace("|", "|" + ch, 3).replace("|" + ch, "|", 2)  # inside the chain field
+            else:
+                u2 = u2 + ch + "x" if u2.count("|") >= 8 else u2
+            return f"{u1}\t{lab}\t{u2}\t0"
         if kind == "valid":
             return f"{draw(unit())}\t{lab}\t{draw(unit())}\t0"
         if kind == "extra":
